@@ -665,12 +665,15 @@ def check_C06(ctx):
 # the cluster engine: Cluster.tla (design), SimCluster (behaviours), harness sim, TraceCluster
 # =================================================================================
 
-def cluster_consts(maxord, maxrep, tmpls, edits, faults, fails, maxpos, mode, extra="", claims="{0}", queue=False, bare=False):
+def cluster_consts(maxord, maxrep, tmpls, edits, faults, fails, maxpos, mode, extra="", claims="{0}", queue=False, bare=False, narrow=False):
     # bare: also sets of type RollingUpdate without the rollingUpdate block (not a defaulted spec).  Only for simulation:
     # with a set cache that never catches up such a set re-creates a pod at the old revision again and again, so the
     # exhaustive state space (which counts pod incarnations) is infinite although every fair behaviour converges.
     strats = '{"RollingUpdate", "OnDelete", "RollingUpdateBare"}' if bare else '{"RollingUpdate", "OnDelete"}'
-    return (("CONSTANTS MaxOrd = %d\n MaxRep = %d\n Tmpls = {%s}\n Policies = {\"OrderedReady\", \"Parallel\"}\n"
+    if narrow:      # OrderedReady + RollingUpdate only (keeps a larger configuration within the hour)
+        strats = '{"RollingUpdate"}'
+    pols = '{"OrderedReady"}' if narrow else '{"OrderedReady", "Parallel"}'
+    return (("CONSTANTS MaxOrd = %d\n MaxRep = %d\n Tmpls = {%s}\n Policies = " + pols + "\n"
             " Strats = " + strats.replace("%", "%%") + "\n Edits = %d\n Faults = %d\n Fails = %d\n MaxFaultPos = %d\n QueueDriven = %s\n ClaimCounts = %s\n InitMode = \"%s\"\n%s")
             % (maxord, maxrep, ", ".join('"%s"' % t for t in tmpls), edits, faults, fails, maxpos, "TRUE" if queue else "FALSE", claims, mode, extra))
 
@@ -700,11 +703,17 @@ def cluster_check(ctx, beh_invs, rec_invs, invariants, properties, faults=0, fai
     if mode == "migration":
         ctx.design("Cluster", cluster_consts(0, 1, ["t0", "t1"], 0, 0, 0, 3, "migration") + body, "migration-1ord", heap="16g", timeout=3400)
         if not q:
-            ctx.design("Cluster", cluster_consts(1, 1, ["t0", "t1"], 0, 0, 0, 3, "migration") + body, "migration-2ord", heap="24g", timeout=3400)
+            # (2 ordinals with both policies and strategies: > 8 M states, does not finish within the hour; measured 1.8 M / 12 min narrow)
+            ctx.design("Cluster", cluster_consts(1, 1, ["t0", "t1"], 0, 0, 0, 3, "migration", narrow=True) + body, "migration-2ord-ordered-ru", heap="24g", timeout=3400)
     else:
         ctx.design("Cluster", cluster_consts(1, 1, ["t0", "t1"], edits, faults, fails, 3, "empty", claims=cc, queue=queue) + body, "cluster-2ord" + ("-queue" if queue else ""), heap="16g")
         if not q:
-            ctx.design("Cluster", cluster_consts(1, 2, ["t0", "t1"], 1, faults, 1, 3, "empty", claims=cc, queue=queue) + body, "cluster-2ord-rep2" + ("-queue" if queue else ""), heap="24g", timeout=3400)
+            # measured: (2 ordinals, replicas <= 2, 1 edit) 200 k states / 50 s; (replicas <= 1, 2 edits) 3 M states / 10 min;
+            # kubelet-side trouble (Fails) or a fault on top of either does not finish within the hour and is left to simulation
+            if faults == 0 or claims == 0:      # (with one fault: 503 k states / 6 min)
+                ctx.design("Cluster", cluster_consts(1, 2, ["t0", "t1"], 1, faults, 0, 3, "empty", claims=cc, queue=queue) + body, "cluster-2ord-rep2" + ("-queue" if queue else ""), heap="24g", timeout=3400)
+            if faults == 0 and claims == 0:
+                ctx.design("Cluster", cluster_consts(1, 1, ["t0", "t1"], 2, 0, 0, 3, "empty", claims=cc, queue=queue) + body, "cluster-2ord-2edits" + ("-queue" if queue else ""), heap="24g", timeout=3400)
     # behaviours from the model (direction A)
     ntlc, nrand, depth = (int(120 * scale), int(120 * scale), 24) if q else (int(1500 * scale), int(3000 * scale), 30)
     wd = os.path.join(ctx.outdir, "simulate")
